@@ -1,10 +1,13 @@
 package main
 
 import (
+	"bytes"
 	"context"
 	"crypto/tls"
 	"fmt"
+	"net"
 	"os"
+	"sort"
 	"strings"
 	"sync"
 	"time"
@@ -88,17 +91,40 @@ func clientCert(repo, cn string) *tls.Certificate {
 }
 
 func (f *grpcFront) conn(client string) *grpc.ClientConn {
+	return f.connFrom(client, "")
+}
+
+// connFrom connects from the given loopback source address (any 127.x.y.z can be bound on Linux), so that the two
+// ends of the TCP connection have different addresses; "" = whatever the kernel picks (127.0.0.1).
+func (f *grpcFront) connFrom(client, src string) *grpc.ClientConn {
 	f.mu.Lock()
 	defer f.mu.Unlock()
-	if c, ok := f.conns[client]; ok {
+	if c, ok := f.conns[client+"@"+src]; ok {
 		return c
 	}
-	c, err := grpc.NewClient(fmt.Sprintf("127.0.0.1:%d", f.port), tlsOpt(clientCert(f.repo, client)))
+	opts := []grpc.DialOption{tlsOpt(clientCert(f.repo, client))}
+	if src != "" {
+		d := &net.Dialer{LocalAddr: &net.TCPAddr{IP: net.ParseIP(src)}}
+		opts = append(opts, grpc.WithContextDialer(func(ctx context.Context, addr string) (net.Conn, error) {
+			return d.DialContext(ctx, "tcp", addr)
+		}))
+	}
+	c, err := grpc.NewClient(fmt.Sprintf("127.0.0.1:%d", f.port), opts...)
 	if err != nil {
 		panic(err)
 	}
-	f.conns[client] = c
+	f.conns[client+"@"+src] = c
 	return c
+}
+
+// srcOf: the source address a gRPC-routed op asks for (only loopback addresses can be realised).
+func srcOf(f []string) string {
+	if len(f) > 2 {
+		if ip := ipOf(f[2]); strings.HasPrefix(ip, "127.") && net.ParseIP(ip) != nil {
+			return ip
+		}
+	}
+	return ""
 }
 
 func stateLetter(s pb.ResponseState) string {
@@ -159,13 +185,45 @@ func (w *world) execGRPC(f []string) string {
 	ctx, cancel := context.WithTimeout(context.Background(), 20*time.Second)
 	defer cancel()
 	client := ""
-	if f[0] != "restart" && len(f) > 1 {
+	if f[0] != "restart" && len(f) > 1 && f[1] != "." {
 		client = unhexStr(f[1])
 	}
 	if client == "" {
 		client = "anonymous-empty" // a certificate needs a subject; the model is given the same name
 	}
 	switch f[0] {
+	case "list":
+		// the listing as a client receives it: the names in the response of the real ListAccounts handler (ordinary and
+		// distributed accounts alike), each checked to carry the public key the fetcher has for that name
+		var paths []string
+		if f[2] != "-" {
+			for _, p := range strings.Split(f[2], ",") {
+				paths = append(paths, hs(p))
+			}
+		}
+		res, err := pb.NewListerClient(fr.conn(client)).ListAccounts(ctx, &pb.ListAccountsRequest{Paths: paths})
+		if err != nil {
+			return "ERR:" + err.Error()
+		}
+		var names []string
+		add := func(nm string, pub []byte) {
+			if _, fa, err := w.fetcher.FetchAccount(ctx, nm); err != nil || !bytes.Equal(fa.PublicKey().Marshal(), pub) {
+				nm += "!"
+			}
+			names = append(names, hexOrDot([]byte(nm)))
+		}
+		for _, a := range res.GetAccounts() {
+			add(a.GetName(), a.GetPublicKey())
+		}
+		for _, a := range res.GetDistributedAccounts() {
+			add(a.GetName(), a.GetPublicKey())
+		}
+		sort.Strings(names)
+		out := "-"
+		if len(names) > 0 {
+			out = strings.Join(names, ",")
+		}
+		return stateLetter(res.GetState()) + " " + out
 	case "att":
 		res, err := pb.NewSignerClient(fr.conn(client)).SignBeaconAttestation(ctx, attReq(parseAddr(f[3]), strings.Split(f[4], ",")))
 		if err != nil {
@@ -204,7 +262,7 @@ func (w *world) execGRPC(f []string) string {
 		}
 		return respStr(res)
 	case "sign":
-		res, err := pb.NewSignerClient(fr.conn(client)).Sign(ctx, signReq(parseAddr(f[3]), strings.Split(f[4], ",")))
+		res, err := pb.NewSignerClient(fr.connFrom(client, srcOf(f))).Sign(ctx, signReq(parseAddr(f[3]), strings.Split(f[4], ",")))
 		if err != nil {
 			return "ERR:" + err.Error()
 		}
@@ -215,7 +273,7 @@ func (w *world) execGRPC(f []string) string {
 			p := strings.Split(it, ",")
 			req.Requests = append(req.Requests, signReq(parseAddr(p[0]), p[1:]))
 		}
-		res, err := pb.NewSignerClient(fr.conn(client)).Multisign(ctx, req)
+		res, err := pb.NewSignerClient(fr.connFrom(client, srcOf(f))).Multisign(ctx, req)
 		if err != nil {
 			return "ERR:" + err.Error()
 		}
